@@ -415,8 +415,40 @@ impl Driver for SpecialNotLost {
             return Outcome::Discard("empty plan");
         }
         order_plan(&mut plan);
-        c.note(|| format!("MODULE (component wrapper: {})\n{}\nPLAN\n{}", component, dm::print_wat(&bytes), render_plan(&plan)));
-        let ap = match run_plan(&bytes, &plan, true) {
+        // one time in three (module paths only) the function index space is re-indexed before
+        // the plan is applied: an import is added, or a function import is replaced by a built
+        // function.  The caller's FunctionIDs stay valid; the markers are then looked for by
+        // content, not by index.
+        let mut pre: Vec<PreEdit> = vec![];
+        if !component && !plan.iter().any(|i| i.path.is_component()) && c.t.chance(1, 3) {
+            let void_ty = din.types.iter().position(|t| t.contains("params: [], results: []") && t.contains("is_final: true"));
+            let fimps: Vec<(u32, u32)> = {
+                // (ImportsID, function index) of the function imports
+                let mut v = vec![];
+                let mut fi = 0u32;
+                for (k, (_, _, ty)) in din.imports.iter().enumerate() {
+                    if ty.starts_with("func") || ty.starts_with("Func") {
+                        v.push((k as u32, fi));
+                        fi += 1;
+                    }
+                }
+                v
+            };
+            if c.t.bool() || fimps.is_empty() {
+                if let Some(t) = void_ty {
+                    pre.push(PreEdit::AddImportFunc(t as u32));
+                    c.class("pre_edit:add_import_func");
+                }
+            } else {
+                let (imp, fidx) = *c.t.pick(&fimps);
+                if let Some((p, r)) = simple_sig(&_gm, fidx) {
+                    pre.push(PreEdit::ReplaceImport(imp, p, r));
+                    c.class("pre_edit:replace_import");
+                }
+            }
+        }
+        c.note(|| format!("MODULE (component wrapper: {})\n{}\nPRE-EDITS {:?}\nPLAN\n{}", component, dm::print_wat(&bytes), pre, render_plan(&plan)));
+        let ap = match run_plan_edit(&bytes, &plan, true, 1, &pre) {
             Ok(a) => a,
             Err(o) => return by_trigger(&triggers, o),
         };
@@ -439,10 +471,16 @@ impl Driver for SpecialNotLost {
             }
             accepted += 1;
             c.class(&format!("accepted:{}", key));
-            let out_ops = &dout.funcs[inj.func as usize].ops;
             let needle = format!("I32Const {{ value: {} }}", inj.marker);
+            // after a pre-edit the function sits at another index: find it by its markers
+            let shifted: Option<&Vec<String>> = if pre.is_empty() { None } else { dout.funcs.iter().map(|f| &f.ops).find(|ops| ops.iter().any(|o| *o == needle)) };
+            let empty: Vec<String> = vec![];
+            let out_ops: &Vec<String> = if pre.is_empty() { &dout.funcs[inj.func as usize].ops } else { shifted.unwrap_or(&empty) };
             let present = out_ops.iter().any(|o| *o == needle);
             let ok = match inj.mode {
+                // (after a pre-edit an empty replacement leaves no marker to find the function by)
+                IMode::EmptyBlockAlt if !pre.is_empty() => true,
+                IMode::BlockAlt if !pre.is_empty() => present,
                 IMode::EmptyBlockAlt => construct_gone(&din.funcs[inj.func as usize].ops, out_ops, inj.instr, &plan, inj.func),
                 IMode::BlockAlt => present && construct_gone(&din.funcs[inj.func as usize].ops, out_ops, inj.instr, &plan, inj.func),
                 _ => present,
@@ -523,4 +561,27 @@ fn construct_gone(input: &[String], output: &[String], at: usize, plan: &[Inj], 
         "If" | "Else" if flagged => true,
         _ => cnt(output) + same_kind_removed <= cnt(input),
     }
+}
+
+/// parameter / result types of function `fidx` if they are plain numeric types (what the
+/// FunctionBuilder of a replacement needs)
+fn simple_sig(gm: &crate::gen::GModule, fidx: u32) -> Option<(Vec<wirm::DataType>, Vec<wirm::DataType>)> {
+    let mut k = 0u32;
+    for imp in &gm.imports {
+        if let crate::gen::GImportKind::Func(ty) = &imp.kind {
+            if k == fidx {
+                if !gm.types[*ty as usize].is_final || gm.types[*ty as usize].supertype.is_some() {
+                    return None;
+                }
+                if let crate::gen::GComposite::Func { params, results } = &gm.types[*ty as usize].comp {
+                    if params.iter().chain(results.iter()).all(|v| v.is_num()) {
+                        return Some((params.iter().map(|v| super::edit::dt(*v)).collect(), results.iter().map(|v| super::edit::dt(*v)).collect()));
+                    }
+                }
+                return None;
+            }
+            k += 1;
+        }
+    }
+    None
 }
